@@ -157,6 +157,8 @@ DeleteApply(s, p) ==
 (***************************************************************************)
 DiiApply(s, c, v) ==
   IF v = "good" THEN [res |-> ROk, st |-> s]
+  ELSE IF s.obj[c] = "absent" /\ ~s.cref[c].has
+    THEN [res |-> RCls("ioerror"), st |-> s]   \* nothing to delete: FileNotFoundError
   ELSE [res |-> RCls(v),
         st  |-> IF s.cref[c].has THEN s ELSE [s EXCEPT !.obj[c] = "absent"]]
 
